@@ -730,9 +730,25 @@ type NonceCase struct {
 
 const alphaPool = "0123456789abcdefghijklmnopqrstuvwxyzABCDEFGHIJKLMNOPQRSTUVWXYZ-_"
 
+// bigPool: 250 distinct byte values (alphabets longer than 64 characters: index widths of 6 or 7 bits are not enough)
+var bigPool = func() string {
+	b := make([]byte, 0, 250)
+	for v := 1; v <= 250; v++ {
+		b = append(b, byte(v))
+	}
+	return string(b)
+}()
+
 func GenNonce(t *rapid.T) NonceCase {
 	var c NonceCase
-	switch rapid.IntRange(0, 5).Draw(t, "akind") {
+	switch rapid.IntRange(0, 7).Draw(t, "akind") {
+	case 6: // more than 64 characters: sizes around the powers of two, the printable ASCII set, everything
+		n := rapid.SampledFrom([]int{65, 70, 94, 127, 128, 129, 200, 250}).Draw(t, "big")
+		o := rapid.IntRange(0, len(bigPool)-n).Draw(t, "bigoff")
+		c.Alphabet = bigPool[o : o+n]
+	case 7:
+		perm := rapid.Permutation([]byte(bigPool)).Draw(t, "bigperm")
+		c.Alphabet = string(perm[:rapid.IntRange(65, len(perm)).Draw(t, "bigalen")])
 	case 0:
 		c.Alphabet = digits
 	case 1: // a one- or two-character alphabet
@@ -761,7 +777,7 @@ func ExecNonce(c NonceCase) (res *vkit.Result) {
 		}
 		present[c.Alphabet[i]] = true
 	}
-	if len(c.Alphabet) == 0 || len(c.Alphabet) > 64 || c.Length < 1 || c.Calls < 1 || c.Length*c.Calls < minAlphabetSample || c.Length*c.Calls > 50*minAlphabetSample {
+	if len(c.Alphabet) == 0 || len(c.Alphabet) > 256 || c.Length < 1 || c.Calls < 1 || c.Length*c.Calls < minAlphabetSample || c.Length*c.Calls > 50*minAlphabetSample {
 		res.Skip("empty alphabet or sample smaller than 20000 characters")
 		return res
 	}
@@ -802,8 +818,10 @@ func ExecNonce(c NonceCase) (res *vkit.Result) {
 		res.Class("alphabet:2")
 	case len(c.Alphabet) <= 16:
 		res.Class("alphabet:3..16")
-	default:
+	case len(c.Alphabet) <= 64:
 		res.Class("alphabet:17..64")
+	default:
+		res.Class("alphabet:65..250")
 	}
 	res.Class("fn:" + name)
 	res.NonTrivial = true
@@ -813,9 +831,9 @@ func ExecNonce(c NonceCase) (res *vkit.Result) {
 var PartNonce = vkit.Part[NonceCase]{
 	Property: Property,
 	Name:     "nonce",
-	Rule: "Generated: alphabets of 1..64 distinct characters (the digits, one/two-character alphabets, the full pool, random subsets in random order), string lengths {1,2,6,8,32,250,20000}, " +
+	Rule: "Generated: alphabets of 1..250 distinct byte values (the digits, one/two-character alphabets, a 64-character pool, random subsets in random order, 65/70/94/127/128/129/200/250 consecutive byte values, random subsets of 250), string lengths {1,2,6,8,32,250,20000}, " +
 		"ceil(20000/length) calls of random.GenNonceStr or random.SecGenNonceStr. Oracle: each result has the requested length, only alphabet characters, and every alphabet character " +
-		"occurs among the >= 20000 characters (miss probability of a uniform generator <= 64*e^-312). Non-trivial: every executed case.",
+		"occurs among the >= 20000 characters (miss probability of a uniform generator <= 250*e^-80). Non-trivial: every executed case.",
 	Quick:    100,
 	Thorough: 160,
 	Gen:      GenNonce,
